@@ -101,6 +101,10 @@ class Bindings:
         """
         Get the hardware configuration for a given Einsum
         """
+        if einsum not in self.configs:
+            raise ValueError(
+                "Accelerator config and prefix missing for Einsum " + einsum)
+
         return self.configs[einsum]
 
     def get_prefix(self, einsum: str) -> str:
